@@ -300,3 +300,17 @@ Proof.
   split; [rewrite T, C1; reflexivity|]. split; [rewrite X, C2; reflexivity|]. split; [|auto].
   intros nm. destruct (M nm) as [M1 M2]. rewrite M1, M2, C6, C7. auto.
 Qed.
+
+Lemma fork_clone_start : forall e w i b, nth_error (w_bos w) i = Some b -> b_live b = true ->
+  (exists w' nb, step e w (OFork i) = (w', RNone) /\
+    nth_error (w_bos w') (length (w_bos w)) = Some nb /\ length (w_bos w') = S (length (w_bos w)) /\
+    counters nb = counters b /\ b_max nb = b_max b /\ b_vars nb = b_vars b /\ b_parent nb = Some i /\ b_fn nb = [] /\
+    b_live nb = true /\ b_noop nb = false /\
+    nth_error (w_ctxs w') (b_ctx nb) = Some (Some (b_ctx b), false) /\
+    (forall k x, nth_error (w_bos w) k = Some x -> nth_error (w_bos w') k = Some x)) /\
+  (exists w' nb, step e w (OClone i) = (w', RNone) /\
+    nth_error (w_bos w') (length (w_bos w)) = Some nb /\ length (w_bos w') = S (length (w_bos w)) /\
+    counters nb = counters b /\ b_max nb = b_max b /\ b_vars nb = b_vars b /\ b_parent nb = b_parent b /\ b_fn nb = [] /\
+    b_live nb = true /\ b_noop nb = false /\ b_ctx nb = b_ctx b /\ w_ctxs w' = w_ctxs w /\
+    (forall k x, nth_error (w_bos w) k = Some x -> nth_error (w_bos w') k = Some x)).
+Proof. intros. split; [apply fork_start|apply clone_start]; auto. Qed.
